@@ -94,8 +94,6 @@ func CheckChain(ctx context.Context, st store.Store, ex ChainExpect, hit func(st
 	var blocks []Block
 	var prevHash []byte
 	var prevTime uint64
-	respIdx := 0
-	mappingBroken := false
 	for h := ex.InitialHeight; h <= height; h++ {
 		hdr, data, err := st.GetBlockData(ctx, h)
 		if err != nil {
@@ -118,13 +116,6 @@ func CheckChain(ctx context.Context, st store.Store, ex ChainExpect, hit func(st
 			hit("time-monotone")
 			if hdr.BaseHeader.Time < prevTime {
 				add("time-monotone", h, "time %d < predecessor %d", hdr.BaseHeader.Time, prevTime)
-			}
-		} else {
-			if len(data.Txs) != 0 {
-				add("genesis-empty", h, "block at the initial height carries %d txs", len(data.Txs))
-			}
-			if hdr.BaseHeader.Time != ex.GenesisNano {
-				add("genesis-time", h, "block at the initial height has time %d, genesis %d", hdr.BaseHeader.Time, ex.GenesisNano)
 			}
 		}
 		txs := make([][]byte, len(data.Txs))
@@ -176,36 +167,6 @@ func CheckChain(ctx context.Context, st store.Store, ex ChainExpect, hit func(st
 			add("hash-index", h, "GetBlockByHash(hash of %d): err=%v", h, err)
 		}
 		b := Block{Height: h, HeaderHash: hh, Txs: txs, TimeNano: hdr.BaseHeader.Time, Root: root, RespID: -1}
-		// batch mapping
-		if ex.Responses != nil && h > ex.InitialHeight && !mappingBroken {
-			hit("batch-mapping")
-			found := false
-			for respIdx < len(ex.Responses) {
-				r := ex.Responses[respIdx]
-				rtxs := r.Txs
-				if r.Kind == world.SeqEmpty {
-					rtxs = nil
-				}
-				if equalTxs(rtxs, txs) && uint64(r.Time.UnixNano()) == hdr.BaseHeader.Time {
-					b.RespID = r.ID
-					found = true
-					respIdx++
-					break
-				}
-				if ex.AllowSkip != nil && ex.AllowSkip(r, prevTime) {
-					respIdx++
-					continue
-				}
-				add("batch-mapping", h, "block %d (%d txs, t=%d) is not built from the next released batch #%d (%s, %d txs, t=%d)", h, len(txs), hdr.BaseHeader.Time, r.ID, r.Kind, len(r.Txs), r.Time.UnixNano())
-				mappingBroken = true
-				found = true
-				break
-			}
-			if !found {
-				add("batch-mapping", h, "block %d (%d txs, t=%d) was not built from any released batch", h, len(txs), hdr.BaseHeader.Time)
-				mappingBroken = true
-			}
-		}
 		if ex.CheckExecLog {
 			hit("exec-log")
 			ok := false
@@ -223,6 +184,11 @@ func CheckChain(ctx context.Context, st store.Store, ex ChainExpect, hit func(st
 		prevRoot = root
 		prevHash = hh
 		prevTime = hdr.BaseHeader.Time
+	}
+	if ex.Responses != nil {
+		for _, pr := range mapBlocksToBatches(blocks, ex, hit) {
+			probs = append(probs, pr)
+		}
 	}
 	// state
 	s, err := st.GetState(ctx)
@@ -308,4 +274,88 @@ func CheckBroadcasts(blocks []Block, initial uint64, hdrs []*types.SignedHeader,
 		}
 	}
 	return probs
+}
+
+// mapBlocksToBatches judges "every block commits to exactly the transactions of the batch it was built from, batches
+// in release order": the blocks, in order, must match a subsequence of the released batches, in order, with equal
+// transaction lists; a batch may be left out only where AllowSkip says so (given the time of the block before it).
+// Whether the block at the initial height was built from a batch (or is the node's own empty first block) is the
+// implementation's choice: both readings are tried. Block time stamps take no part in the matching.
+func mapBlocksToBatches(blocks []Block, ex ChainExpect, hit func(string)) []Problem {
+	if len(blocks) == 0 {
+		return nil
+	}
+	rtxs := func(r world.SeqResp) [][]byte {
+		if r.Kind == world.SeqEmpty {
+			return nil
+		}
+		return r.Txs
+	}
+	try := func(from int) (fail int, next int, assign []int) {
+		// reach: response indices that can come next after the blocks matched so far; parent pointers give one assignment
+		type state struct{ next, parent, used int }
+		layers := [][]state{{{next: 0, parent: -1, used: -1}}}
+		for bi := from; bi < len(blocks); bi++ {
+			prevTime := ex.GenesisNano
+			if bi > 0 {
+				prevTime = blocks[bi-1].TimeNano
+			}
+			cur := layers[len(layers)-1]
+			var nxt []state
+			seen := map[int]bool{}
+			for pi, stt := range cur {
+				for k := stt.next; k < len(ex.Responses); k++ {
+					r := ex.Responses[k]
+					if equalTxs(rtxs(r), blocks[bi].Txs) && !seen[k+1] {
+						seen[k+1] = true
+						nxt = append(nxt, state{next: k + 1, parent: pi, used: k})
+					}
+					if ex.AllowSkip == nil || !ex.AllowSkip(r, prevTime) {
+						break
+					}
+				}
+			}
+			if len(nxt) == 0 {
+				return bi, cur[0].next, nil
+			}
+			layers = append(layers, nxt)
+		}
+		// one assignment (first state of the last layer, back through the parents)
+		assign = make([]int, len(blocks))
+		for i := range assign {
+			assign[i] = -1
+		}
+		pi := 0
+		for li := len(layers) - 1; li >= 1; li-- {
+			stt := layers[li][pi]
+			assign[from+li-1] = stt.used
+			pi = stt.parent
+		}
+		return -1, 0, assign
+	}
+	for bi := range blocks {
+		if blocks[bi].Height > ex.InitialHeight {
+			hit("batch-mapping")
+		}
+	}
+	fail, next, assign := try(1)
+	if fail >= 0 {
+		if f0, _, a0 := try(0); f0 < 0 {
+			fail, assign = -1, a0
+		}
+	}
+	if fail >= 0 {
+		b := blocks[fail]
+		if next < len(ex.Responses) {
+			r := ex.Responses[next]
+			return []Problem{{"batch-mapping", b.Height, fmt.Sprintf("block %d (%d txs, t=%d) is not built from the next released batch #%d (%s, %d txs, t=%d) nor from a later one that could follow it", b.Height, len(b.Txs), b.TimeNano, r.ID, r.Kind, len(r.Txs), r.Time.UnixNano())}}
+		}
+		return []Problem{{"batch-mapping", b.Height, fmt.Sprintf("block %d (%d txs, t=%d) was not built from any released batch", b.Height, len(b.Txs), b.TimeNano)}}
+	}
+	for i, k := range assign {
+		if k >= 0 {
+			blocks[i].RespID = ex.Responses[k].ID
+		}
+	}
+	return nil
 }
